@@ -126,3 +126,30 @@ char *strndup(const char *s, size_t n)
   p[l] = 0;
   return p;
 }
+
+/* further byte-level string functions CBMC has no body for (a change to the
+ * parser may well start using them) */
+char *strpbrk(const char *s, const char *accept)
+{
+  for (size_t i = 0; s[i]; i++)
+    for (size_t k = 0; accept[k]; k++)
+      if (s[i] == accept[k]) return (char *)(s + i);
+  return NULL;
+}
+size_t strspn(const char *s, const char *accept)
+{
+  size_t i = 0;
+  for (; s[i]; i++) {
+    int hit = 0;
+    for (size_t k = 0; accept[k]; k++) if (s[i] == accept[k]) hit = 1;
+    if (!hit) break;
+  }
+  return i;
+}
+size_t strcspn(const char *s, const char *reject)
+{
+  size_t i = 0;
+  for (; s[i]; i++)
+    for (size_t k = 0; reject[k]; k++) if (s[i] == reject[k]) return i;
+  return i;
+}
